@@ -53,6 +53,9 @@
 (*                    delete-then-add under separate lock acquisitions (and  *)
 (*                    every save does, the "expiry changed" flag is sticky): *)
 (*                    a walk in between does not meet the record            *)
+(*  "PatchResurrects" PatchTreasures on a never persisted record that was    *)
+(*                    deleted (or shifted out by a claim) after the patcher  *)
+(*                    fetched it patches the kept body and re-inserts it     *)
 (*  "Resurrect"       in a swamp whose records are not persisted (body     *)
 (*                    kept on delete), patch-expired patches and saves a   *)
 (*                    record that was deleted after selection (re-insert), *)
@@ -89,7 +92,9 @@ NoReq == [kind |-> ""]
 Inf == 1000000
 
 Has(d) == d \in Dev
-KeepBody == mode = "mem" /\ Has("Resurrect")   \* a deleted, never persisted record keeps its body and expiry
+\* a deleted, never persisted record keeps its body and expiry (only observable through the two deviations)
+KeepBodyP == mode = "mem" /\ Has("PatchResurrects")
+KeepBody == mode = "mem" /\ Has("Resurrect")
 
 Expired(r) == r.exp # 0 /\ r.exp < NOW
 
@@ -265,7 +270,7 @@ Unlock(c) ==
   /\ pc' = [pc EXCEPT ![c] = IF res[c] = <<>> THEN "ret" ELSE "fin"]
   /\ UNCHANGED <<mode, rec, ix, held, req, cand, res, out, owner, alive, bad, used, nops>>
 
-Kill(k) == IF KeepBody THEN [rec[k] EXCEPT !.live = FALSE] ELSE Dead
+Kill(k) == IF KeepBody \/ KeepBodyP THEN [rec[k] EXCEPT !.live = FALSE] ELSE Dead
 
 \* shift: CloneAndDelete*Treasures calls deleteHandler for every record it took
 DelStep(c) ==
@@ -346,7 +351,8 @@ MayCreate(k) == ~rec[k].live /\ (k \notin alive \/ ClaimersIdle)
 ICall(i, o) ==
   /\ i \in Interferers /\ pc[i] = "idle"
   /\ o.kind = "put" /\ ~rec[o.k].live => MayCreate(o.k)
-  /\ req' = [req EXCEPT ![i] = o]
+  \* (saw: PatchFields fetches the treasure object at once and takes its guard later)
+  /\ req' = [req EXCEPT ![i] = [saw |-> rec[o.k].live] @@ o]
   /\ pc' = [pc EXCEPT ![i] = "do"]
   /\ out' = [out EXCEPT ![i] = <<>>]
   /\ nops' = nops + 1
@@ -379,9 +385,21 @@ Apply(i) ==
                             grp |-> IF o.g = "" THEN r.grp ELSE o.g, st |-> IF o.s = "" THEN r.st ELSE o.s]
             IN
             IF ~r.live /\ o.kind = "patch"
-              THEN /\ out' = [out EXCEPT ![i] = <<"KEY_NOT_FOUND">>]
-                   /\ pc' = [pc EXCEPT ![i] = "ret"]
-                   /\ UNCHANGED <<rec, ix, held, owner, alive, used>>
+              THEN \* "PatchResurrects": the patcher fetched the record before somebody deleted it; a never persisted
+                   \* record keeps its body, is patched and saved as if it were new
+                   \E rz \in (IF KeepBodyP /\ o.saw THEN {FALSE, TRUE} ELSE {FALSE}) :
+                     IF rz
+                       THEN /\ rec' = [rec EXCEPT ![k] = nr]
+                            /\ out' = [out EXCEPT ![i] = <<"PATCHED">>]
+                            /\ ix' = [ix EXCEPT ![k] = nr.exp]
+                            /\ held' = [held EXCEPT ![k] = {}]
+                            /\ owner' = [owner EXCEPT ![k] = ""]
+                            /\ used' = used \cup {"PatchResurrects"}
+                            /\ pc' = [pc EXCEPT ![i] = "ret"]
+                            /\ UNCHANGED alive
+                       ELSE /\ out' = [out EXCEPT ![i] = <<"KEY_NOT_FOUND">>]
+                            /\ pc' = [pc EXCEPT ![i] = "ret"]
+                            /\ UNCHANGED <<rec, ix, held, owner, alive, used>>
               ELSE
                 /\ r.live \/ MayCreate(k)
                 /\ rec' = [rec EXCEPT ![k] = nr]
@@ -397,7 +415,9 @@ Apply(i) ==
                      /\ used' = IF gap THEN used \cup {"RefileGap"} ELSE used
                      /\ pc' = [pc EXCEPT ![i] = IF gap THEN "gap"
                                                  ELSE IF (r.live /\ (nr.exp # r.exp \/ Refiles(k))) \/ (creates /\ o.e # 0) THEN "rx" ELSE "ret"]
-  /\ UNCHANGED <<mode, lock, req, cand, walk, res, todo, bad, nops>>
+  /\ bad' = IF ~rec[req[i].k].live /\ rec'[req[i].k].live /\ req[i].kind = "patch"
+              THEN bad \cup {<<"NoResurrection", i, req[i].k>>} ELSE bad
+  /\ UNCHANGED <<mode, lock, req, cand, walk, res, todo, nops>>
 
 \* SaveFunction's IsExpirationTimeChanged / new-record branch: delete + add + sort under the expiration beacon's lock
 IReindex(i) ==
